@@ -270,3 +270,5 @@ def check(ctx):
     check_log_file(ctx)
     check_retirement(ctx)
     c17.check_recover(ctx)
+    from . import c02
+    c02.check_manifest(ctx)    # a kill between the CURRENT switch and the MANIFEST record must leave an openable database
